@@ -13,6 +13,9 @@ Import ListNotations.
 Open Scope N_scope.
 
 (* ---- generic helpers ---- *)
+Lemma Ok_inj {A} (a b : A) : @Ok A a = Ok b -> a = b.
+Proof. intros H. injection H. auto. Qed.
+
 Lemma c2v_ok_iff {A} (r : res A) (a : A) : checksum_to_value_error r = Ok a <-> r = Ok a.
 Proof.
   unfold checksum_to_value_error. destruct r as [x|e]; [tauto|].
